@@ -1,7 +1,7 @@
 /- Tree-level deserialise-then-serialise for the serdes framework model (C06): whatever bits a
    (nested) description program deserialises, serialising the resulting description with the same
    program writes exactly the bits that were consumed and uses the description up. -/
-import VC2.Proofs.ExpGolombCanon
+import VC2.Proofs.SerdesOnes
 namespace VC2.Proofs.Serdes
 open VC2 VC2.Model.Serdes
 
@@ -41,23 +41,34 @@ theorem fetch_cons_self (t : String) (v dflt : Val) (d acc : Dict) : fetch ((t, 
 /-- `(used ++ rest).length - rest.length = used.length` -/
 theorem len_sub' (b rest : List Bool) : (b ++ rest).length - rest.length = b.length := by simp
 
+theorem realOf_false_len (used bits rest : List Bool) (h : RealOf false used bits rest) :
+    bits.length - rest.length = used.length := by
+  unfold RealOf at h; simp only [Bool.false_eq_true, if_false] at h
+  rw [h]; simp
+
+theorem pos_eq (blk : Bool) (pos : Nat) (used bits rest : List Bool) (h : RealOf blk used bits rest) :
+    (if blk then pos else pos + (bits.length - rest.length)) = (if blk then pos else pos + used.length) := by
+  cases blk with
+  | true => rfl
+  | false => simp only [Bool.false_eq_true, if_false]; rw [realOf_false_len used bits rest h]
+
 mutual
-theorem desStmt_ser (hC : ∀ k, CompleteAt C k) : ∀ (s : Stmt) (pos : Nat) (acc : Dict) (bits : List Bool) (acc' : Dict)
-    (rest : List Bool), desStmt C pos s acc bits = some (acc', rest) →
-    ∃ new used, acc' = acc ++ new ∧ bits = used ++ rest ∧ Fresh new acc ∧
-      ∀ d, Fresh new d → serStmt C pos s (new ++ d) acc = some (used, acc ++ new, d)
-  | .prim t k, pos, acc, bits, acc', rest, h => by
+theorem desStmt_ser (hC : ∀ k, CompleteAt C k) : ∀ (s : Stmt) (blk : Bool) (pos : Nat) (acc : Dict) (bits : List Bool) (acc' : Dict)
+    (rest : List Bool), desStmt C blk pos s acc bits = some (acc', rest) →
+    ∃ new used, acc' = acc ++ new ∧ RealOf blk used bits rest ∧ Fresh new acc ∧
+      ∀ d, Fresh new d → serStmt C blk pos s (new ++ d) acc = some (used, acc ++ new, d)
+  | .prim t k, blk, pos, acc, bits, acc', rest, h => by
     simp only [desStmt] at h
     split at h
     · cases h
     · rename_i hacc
-      cases hd : C.dec k bits with
+      cases hd : decPrim C blk k bits with
       | none => rw [hd] at h; cases h
       | some q =>
         obtain ⟨v, r⟩ := q
         rw [hd] at h; simp at h
         obtain ⟨e1, e2⟩ := h; subst e1 e2
-        obtain ⟨used, he, hb⟩ := hC k bits v r hd
+        obtain ⟨used, he, hb⟩ := decPrim_complete C k (hC k) blk bits v r hd
         refine ⟨[(t, .leaf v)], used, rfl, hb, ?_, ?_⟩
         · intro k' hk'
           have : t = k' := by simpa [Dict.has] using hk'
@@ -65,18 +76,18 @@ theorem desStmt_ser (hC : ∀ k, CompleteAt C k) : ∀ (s : Stmt) (pos : Nat) (a
         · intro d hf
           have hdt : d.has t = false := hf t (by simp [Dict.has])
           simp only [serStmt, List.singleton_append, get?_cons_self, he, erase_cons_self t _ d hdt]
-  | .primList t ks, pos, acc, bits, acc', rest, h => by
+  | .primList t ks, blk, pos, acc, bits, acc', rest, h => by
     simp only [desStmt] at h
     split at h
     · cases h
     · rename_i hacc
-      cases hd : desPrims C ks bits with
+      cases hd : desPrims C blk ks bits with
       | none => rw [hd] at h; cases h
       | some q =>
         obtain ⟨vs, r⟩ := q
         rw [hd] at h; simp at h
         obtain ⟨e1, e2⟩ := h; subst e1 e2
-        obtain ⟨used, he, hb⟩ := desPrims_ser C ks bits vs r (fun k _ => hC k) hd
+        obtain ⟨used, he, hb⟩ := desPrims_ser C blk ks bits vs r (fun k _ => hC k) hd
         refine ⟨[(t, .list vs)], used, rfl, hb, ?_, ?_⟩
         · intro k' hk'
           have : t = k' := by simpa [Dict.has] using hk'
@@ -84,18 +95,18 @@ theorem desStmt_ser (hC : ∀ k, CompleteAt C k) : ∀ (s : Stmt) (pos : Nat) (a
         · intro d hf
           have hdt : d.has t = false := hf t (by simp [Dict.has])
           simp only [serStmt, List.singleton_append, fetch_cons_self, he, erase_cons_self t _ d hdt]
-  | .sub t body, pos, acc, bits, acc', rest, h => by
+  | .sub t body, blk, pos, acc, bits, acc', rest, h => by
     simp only [desStmt] at h
     split at h
     · cases h
     · rename_i hacc
-      cases hd : desBody C pos body [] bits with
+      cases hd : desBody C blk pos body [] bits with
       | none => rw [hd] at h; cases h
       | some q =>
         obtain ⟨d', r⟩ := q
         rw [hd] at h; simp at h
         obtain ⟨e1, e2⟩ := h; subst e1 e2
-        obtain ⟨new, used, hn, hb, _, hser⟩ := desBody_ser hC body pos [] bits d' r hd
+        obtain ⟨new, used, hn, hb, _, hser⟩ := desBody_ser hC body blk pos [] bits d' r hd
         simp only [List.nil_append] at hn
         subst hn
         have hs := hser [] (by intro k _; rfl)
@@ -107,18 +118,18 @@ theorem desStmt_ser (hC : ∀ k, CompleteAt C k) : ∀ (s : Stmt) (pos : Nat) (a
         · intro d hf
           have hdt : d.has t = false := hf t (by simp [Dict.has])
           simp only [serStmt, List.singleton_append, fetch_cons_self, hs, erase_cons_self t _ d hdt]
-  | .subList t bodies, pos, acc, bits, acc', rest, h => by
+  | .subList t bodies, blk, pos, acc, bits, acc', rest, h => by
     simp only [desStmt] at h
     split at h
     · cases h
     · rename_i hacc
-      cases hd : desBodies C pos bodies bits with
+      cases hd : desBodies C blk pos bodies bits with
       | none => rw [hd] at h; cases h
       | some q =>
         obtain ⟨vs, r⟩ := q
         rw [hd] at h; simp at h
         obtain ⟨e1, e2⟩ := h; subst e1 e2
-        obtain ⟨used, hb, hser⟩ := desBodies_ser hC bodies pos bits vs r hd
+        obtain ⟨used, hb, hser⟩ := desBodies_ser hC bodies blk pos bits vs r hd
         refine ⟨[(t, .list vs)], used, rfl, hb, ?_, ?_⟩
         · intro k' hk'
           have : t = k' := by simpa [Dict.has] using hk'
@@ -126,12 +137,13 @@ theorem desStmt_ser (hC : ∀ k, CompleteAt C k) : ∀ (s : Stmt) (pos : Nat) (a
         · intro d hf
           have hdt : d.has t = false := hf t (by simp [Dict.has])
           simp only [serStmt, List.singleton_append, fetch_cons_self, hser, erase_cons_self t _ d hdt]
-  | .block t len body, pos, acc, bits, acc', rest, h => by
+  | .block t len body, true, pos, acc, bits, acc', rest, h => by simp [desStmt] at h
+  | .block t len body, false, pos, acc, bits, acc', rest, h => by
     simp only [desStmt] at h
     split at h
     · cases h
     · rename_i hlen
-      cases hd : desBody C pos body acc (bits.take len) with
+      cases hd : desBody C true pos body acc (bits.take len) with
       | none => rw [hd] at h; cases h
       | some q =>
         obtain ⟨acc1, left⟩ := q
@@ -141,13 +153,33 @@ theorem desStmt_ser (hC : ∀ k, CompleteAt C k) : ∀ (s : Stmt) (pos : Nat) (a
         · rename_i hacc1
           simp at h
           obtain ⟨e1, e2⟩ := h; subst e1 e2
-          obtain ⟨newB, usedB, hn, hb, hfr, hser⟩ := desBody_ser hC body pos acc (bits.take len) acc1 left hd
+          obtain ⟨newB, usedB, hn, hb, hfr, hser⟩ := desBody_ser hC body true pos acc (bits.take len) acc1 left hd
           subst hn
           have hlen' : len ≤ bits.length := by omega
           have htl : (bits.take len).length = len := by simp; omega
-          have hul : usedB.length + left.length = len := by rw [← htl, hb]; simp
-          refine ⟨newB ++ [(t, .leaf (.bits left))], usedB ++ left, by simp, ?_, ?_, ?_⟩
-          · rw [← hb, List.take_append_drop]
+          unfold RealOf at hb; simp only [if_true] at hb
+          obtain ⟨n, hn, hreal, hall, hz⟩ := hb
+          -- the two shapes of a block: contents inside it, or cut off by its end
+          have hshape : (usedB.drop len).all id = true ∧ left.length = len - usedB.length ∧
+              usedB.take len ++ left = bits.take len := by
+            by_cases hc : n = usedB.length
+            · subst hc
+              rw [List.take_length] at hreal
+              have hl : usedB.length + left.length = len := by rw [← htl, hreal]; simp
+              refine ⟨by rw [List.drop_of_length_le (by omega)]; rfl, by omega, ?_⟩
+              rw [List.take_of_length_le (by omega), hreal]
+            · have hl0 : left = [] := hz (by omega)
+              subst hl0
+              simp only [List.append_nil] at hreal
+              have hn' : n = len := by
+                have := congrArg List.length hreal
+                rw [htl] at this; simp at this; omega
+              subst hn'
+              exact ⟨hall, by simp; omega, by rw [hreal]; simp⟩
+          obtain ⟨hs1, hs2, hs3⟩ := hshape
+          refine ⟨newB ++ [(t, .leaf (.bits left))], usedB.take len ++ left, by simp, ?_, ?_, ?_⟩
+          · unfold RealOf; simp only [Bool.false_eq_true, if_false]
+            rw [hs3, List.take_append_drop]
           · intro k' hk'
             rw [has_app] at hk'
             simp only [Bool.or_eq_true] at hk'
@@ -178,11 +210,12 @@ theorem desStmt_ser (hC : ∀ k, CompleteAt C k) : ∀ (s : Stmt) (pos : Nat) (a
             have hs := hser ((t, .leaf (.bits left)) :: d) hfB
             have e : newB ++ [(t, Val.leaf (.bits left))] ++ d = newB ++ ((t, .leaf (.bits left)) :: d) := by simp
             simp only [serStmt, e, hs]
-            rw [if_pos (by omega), get?_cons_self]
+            rw [if_pos hs1, get?_cons_self]
             simp only
-            rw [if_pos (by omega), erase_cons_self t _ d hdt]
+            rw [if_pos hs2, erase_cons_self t _ d hdt]
             simp
-  | .align t, pos, acc, bits, acc', rest, h => by
+  | .align t, true, pos, acc, bits, acc', rest, h => by simp [desStmt] at h
+  | .align t, false, pos, acc, bits, acc', rest, h => by
     simp only [desStmt] at h
     split at h
     · cases h
@@ -192,8 +225,9 @@ theorem desStmt_ser (hC : ∀ k, CompleteAt C k) : ∀ (s : Stmt) (pos : Nat) (a
       · rename_i hlen
         simp at h
         obtain ⟨e1, e2⟩ := h; subst e1 e2
-        refine ⟨[(t, .leaf (.bits (bits.take (alignBits pos))))], bits.take (alignBits pos), rfl,
-          (List.take_append_drop _ _).symm, ?_, ?_⟩
+        refine ⟨[(t, .leaf (.bits (bits.take (alignBits pos))))], bits.take (alignBits pos), rfl, ?_, ?_, ?_⟩
+        · unfold RealOf; simp only [Bool.false_eq_true, if_false]
+          exact (List.take_append_drop _ _).symm
         · intro k' hk'
           have : t = k' := by simpa [Dict.has] using hk'
           subst this; simpa using hacc
@@ -201,14 +235,14 @@ theorem desStmt_ser (hC : ∀ k, CompleteAt C k) : ∀ (s : Stmt) (pos : Nat) (a
           have hdt : d.has t = false := hf t (by simp [Dict.has])
           have hl : (bits.take (alignBits pos)).length = alignBits pos := by simp; omega
           simp only [serStmt, List.singleton_append, get?_cons_self, hl, if_true, erase_cons_self t _ d hdt]
-  | .computed t v, pos, acc, bits, acc', rest, h => by
+  | .computed t v, blk, pos, acc, bits, acc', rest, h => by
     simp only [desStmt] at h
     split at h
     · cases h
     · rename_i hacc
       simp at h
       obtain ⟨e1, e2⟩ := h; subst e1 e2
-      refine ⟨[(t, .leaf (.int v))], [], rfl, rfl, ?_, ?_⟩
+      refine ⟨[(t, .leaf (.int v))], [], rfl, by simpa using realOf_whole blk [] bits, ?_, ?_⟩
       · intro k' hk'
         have : t = k' := by simpa [Dict.has] using hk'
         subst this; simpa using hacc
@@ -216,28 +250,28 @@ theorem desStmt_ser (hC : ∀ k, CompleteAt C k) : ∀ (s : Stmt) (pos : Nat) (a
         have hdt : d.has t = false := hf t (by simp [Dict.has])
         have ha : acc.has t = false := by simpa using hacc
         simp only [serStmt, ha, Bool.false_eq_true, if_false, List.singleton_append, erase_cons_self t _ d hdt]
-theorem desBody_ser (hC : ∀ k, CompleteAt C k) : ∀ (body : List Stmt) (pos : Nat) (acc : Dict) (bits : List Bool) (acc' : Dict)
-    (rest : List Bool), desBody C pos body acc bits = some (acc', rest) →
-    ∃ new used, acc' = acc ++ new ∧ bits = used ++ rest ∧ Fresh new acc ∧
-      ∀ d, Fresh new d → serBody C pos body (new ++ d) acc = some (used, acc ++ new, d)
-  | [], pos, acc, bits, acc', rest, h => by
+theorem desBody_ser (hC : ∀ k, CompleteAt C k) : ∀ (body : List Stmt) (blk : Bool) (pos : Nat) (acc : Dict) (bits : List Bool) (acc' : Dict)
+    (rest : List Bool), desBody C blk pos body acc bits = some (acc', rest) →
+    ∃ new used, acc' = acc ++ new ∧ RealOf blk used bits rest ∧ Fresh new acc ∧
+      ∀ d, Fresh new d → serBody C blk pos body (new ++ d) acc = some (used, acc ++ new, d)
+  | [], blk, pos, acc, bits, acc', rest, h => by
     simp [desBody] at h
     obtain ⟨e1, e2⟩ := h; subst e1 e2
-    exact ⟨[], [], by simp, rfl, by intro k hk; simp [Dict.has] at hk, by intro d _; simp [serBody]⟩
-  | s :: ss, pos, acc, bits, acc', rest, h => by
+    exact ⟨[], [], by simp, by simpa using realOf_whole blk [] bits, by intro k hk; simp [Dict.has] at hk,
+      by intro d _; simp [serBody]⟩
+  | s :: ss, blk, pos, acc, bits, acc', rest, h => by
     simp only [desBody] at h
-    cases h1 : desStmt C pos s acc bits with
+    cases h1 : desStmt C blk pos s acc bits with
     | none => rw [h1] at h; cases h
     | some q =>
       obtain ⟨acc1, bits1⟩ := q
       rw [h1] at h; simp only at h
-      obtain ⟨new1, used1, hn1, hb1, hf1, hs1⟩ := desStmt_ser hC s pos acc bits acc1 bits1 h1
+      obtain ⟨new1, used1, hn1, hb1, hf1, hs1⟩ := desStmt_ser hC s blk pos acc bits acc1 bits1 h1
       subst hn1
-      have hpos : pos + (bits.length - bits1.length) = pos + used1.length := by rw [hb1, len_sub']
-      rw [hpos] at h
-      obtain ⟨new2, used2, hn2, hb2, hf2, hs2⟩ := desBody_ser hC ss (pos + used1.length) (acc ++ new1) bits1 acc' rest h
+      rw [pos_eq blk pos used1 bits bits1 hb1] at h
+      obtain ⟨new2, used2, hn2, hb2, hf2, hs2⟩ := desBody_ser hC ss blk _ (acc ++ new1) bits1 acc' rest h
       subst hn2
-      refine ⟨new1 ++ new2, used1 ++ used2, by simp, by rw [hb1, hb2, List.append_assoc], ?_, ?_⟩
+      refine ⟨new1 ++ new2, used1 ++ used2, by simp, realOf_join blk used1 used2 bits bits1 rest hb1 hb2, ?_, ?_⟩
       · intro k hk
         rw [has_app] at hk
         simp only [Bool.or_eq_true] at hk
@@ -261,35 +295,34 @@ theorem desBody_ser (hC : ∀ k, CompleteAt C k) : ∀ (body : List Stmt) (pos :
         have hfb : Fresh new2 d := fun k hk => hf k (by rw [has_app, hk]; simp)
         have e : new1 ++ new2 ++ d = new1 ++ (new2 ++ d) := by simp
         simp only [serBody, e, hs1 _ hfa, hs2 _ hfb, List.append_assoc]
-theorem desBodies_ser (hC : ∀ k, CompleteAt C k) : ∀ (bodies : List (List Stmt)) (pos : Nat) (bits : List Bool) (vs : List Val)
-    (rest : List Bool), desBodies C pos bodies bits = some (vs, rest) →
-    ∃ used, bits = used ++ rest ∧ serBodies C pos bodies vs = some (used, vs)
-  | [], pos, bits, vs, rest, h => by
+theorem desBodies_ser (hC : ∀ k, CompleteAt C k) : ∀ (bodies : List (List Stmt)) (blk : Bool) (pos : Nat) (bits : List Bool) (vs : List Val)
+    (rest : List Bool), desBodies C blk pos bodies bits = some (vs, rest) →
+    ∃ used, RealOf blk used bits rest ∧ serBodies C blk pos bodies vs = some (used, vs)
+  | [], blk, pos, bits, vs, rest, h => by
     simp [desBodies] at h
     obtain ⟨e1, e2⟩ := h; subst e1 e2
-    exact ⟨[], rfl, by simp [serBodies]⟩
-  | body :: bodies, pos, bits, vs, rest, h => by
+    exact ⟨[], by simpa using realOf_whole blk [] bits, by simp [serBodies]⟩
+  | body :: bodies, blk, pos, bits, vs, rest, h => by
     simp only [desBodies] at h
-    cases h1 : desBody C pos body [] bits with
+    cases h1 : desBody C blk pos body [] bits with
     | none => rw [h1] at h; cases h
     | some q =>
       obtain ⟨d', bits1⟩ := q
       rw [h1] at h; simp only at h
-      obtain ⟨new, used1, hn, hb1, _, hs1⟩ := desBody_ser hC body pos [] bits d' bits1 h1
+      obtain ⟨new, used1, hn, hb1, _, hs1⟩ := desBody_ser hC body blk pos [] bits d' bits1 h1
       simp only [List.nil_append] at hn
       subst hn
-      have hpos : pos + (bits.length - bits1.length) = pos + used1.length := by rw [hb1, len_sub']
-      rw [hpos] at h
-      cases h2 : desBodies C (pos + used1.length) bodies bits1 with
+      rw [pos_eq blk pos used1 bits bits1 hb1] at h
+      cases h2 : desBodies C blk (if blk then pos else pos + used1.length) bodies bits1 with
       | none => rw [h2] at h; cases h
       | some q2 =>
         obtain ⟨vs', r'⟩ := q2
         rw [h2] at h; simp at h
         obtain ⟨e1, e2⟩ := h; subst e1 e2
-        obtain ⟨used2, hb2, hs2⟩ := desBodies_ser hC bodies (pos + used1.length) bits1 vs' r' h2
+        obtain ⟨used2, hb2, hs2⟩ := desBodies_ser hC bodies blk _ bits1 vs' r' h2
         have hs := hs1 [] (by intro k _; rfl)
         simp only [List.append_nil, List.nil_append] at hs
-        refine ⟨used1 ++ used2, by rw [hb1, hb2, List.append_assoc], ?_⟩
+        refine ⟨used1 ++ used2, realOf_join blk used1 used2 bits bits1 r' hb1 hb2, ?_⟩
         simp only [serBodies, hs, hs2]
 end
 
